@@ -219,6 +219,23 @@ def path_of(term):
     return ".".join(reversed(parts))
 
 
+def lvalue_path(fa, place, bi, si):
+    """dotted path of an assigned place: user variable name + fields for named
+    locals, else the param/field path of its origin"""
+    if place["p"] and fa.upvar_name(place) is None and fa.body.local_name(place["l"]):
+        parts = [fa.body.local_name(place["l"])]
+        for e in place["p"]:
+            if isinstance(e, dict) and "f" in e:
+                parts.append(e["n"])
+            elif e == "*" or (isinstance(e, dict) and "d" in e):
+                continue
+            else:
+                return None
+        if len(parts) > 1:
+            return ".".join(parts)
+    return path_of(lvalue_term(fa, place, bi, si))
+
+
 def assign_sites(fa, path):
     """statements assigning to the memory place with dotted path `path`
     (e.g. 'self.header'); returns [(bb, stmt index)]"""
@@ -229,8 +246,7 @@ def assign_sites(fa, path):
                 continue
             if not st["place"]["p"] and fa.upvar_name(st["place"]) is None:
                 continue
-            t = lvalue_term(fa, st["place"], b.i, si)
-            if path_of(t) == path:
+            if lvalue_path(fa, st["place"], b.i, si) == path:
                 out.append((b.i, si))
     return out
 
@@ -244,8 +260,7 @@ def assign_sites_prefix(fa, prefix):
                 continue
             if not st["place"]["p"] and fa.upvar_name(st["place"]) is None:
                 continue
-            t = lvalue_term(fa, st["place"], b.i, si)
-            p = path_of(t)
+            p = lvalue_path(fa, st["place"], b.i, si)
             if p is not None and (p == prefix or p.startswith(prefix + ".")):
                 out.append((b.i, si, p))
     return out
@@ -761,4 +776,18 @@ def named_local(fa, operand, bi, pos):
         if len(ds) != 1 or ds[0][0] != "assign" or ds[0][4]["k"] != "use":
             return None
         p = op_place(ds[0][4]["op"])
+    return None
+
+
+def named_local_origin(fa, name):
+    """origin term of the (first) definition of the user variable `name`"""
+    for l in fa.body.locals:
+        if l["name"] == name:
+            ds = [d for d in fa.body.defs.get(l["i"], []) if not d[3]["p"]]
+            if ds:
+                d = ds[0]
+                if d[0] == "assign":
+                    return fa.origin_rvalue(d[4], d[1], d[2])
+                if d[0] == "call":
+                    return fa.origin_call(d[1], d[4])
     return None
